@@ -41,6 +41,35 @@ CLAIMED = {
         note=UNIFY_NOTE),
 }
 
+CLAIMED.update({
+    "C08": dict(
+        text="RBTree.tla transcribes descend/insert/fix-up/rotations (I-level) and states the red-black search-tree "
+             "predicates (R-level). TLC checks I=>R for all insertion orders over 7 (quick) / 9 (thorough) keys, enumerates "
+             "every sequence of length 6 over 5 keys (quick) / 7 over 7 (thorough) with the predicted shape after each "
+             "insertion; both tree flavours are driven with each sequence and the real shape (read through a class derived "
+             "from the protected core) must equal the prediction, otherwise it is judged by the R-level trace spec; long "
+             "sorted/reversed/zig-zag/random/duplicate sequences with integer, address and lexicographic comparators are "
+             "validated by RBTreeTrace.",
+        ref="DESIGN.md §3 C08", tech="TLA+ RBTree: exhaustive insertion sequences replayed with shape comparison + R-level trace validation",
+        note="Trusted: TLC, the R-level predicates in spec/RBTree.tla, the shape reader in harness/rbtree.cxx. Bounded: "
+             "sequence length/keys as stated; long traces validate shapes at sampled steps (every 16th/60th insertion beyond the dense prefix)."),
+    "C10": dict(
+        text="IprSpecifiers.tla models a specifier/qualifier set as the set of its basic names. TLC reaches every subset of "
+             "the basis (quick: two overlapping 10-name halves and all 8 qualifier sets; thorough: all 2^18) and prints the "
+             "answers the interface must give (decomposition; | & ^ implies against 23 probe sets); the replayer evaluates the "
+             "real Lexicon on each. Random register machines, all 20 named accessors and refused names are validated by the "
+             "trace spec.",
+        ref="DESIGN.md §3 C10", tech="TLA+ IprSpecifiers: TLC enumerates all subsets with required answers, replayed; register-machine trace validation",
+        note="Trusted: TLC, the basis list in spec/IprSpecifiers.tla (from the documented accessors), harness/specs.cxx. "
+             "Pairs of subsets are covered against 23 probes per subset, not all 2^36 pairs."),
+    "C16": dict(
+        text="IprSubst.tla: substitutions as partial functions. TLC enumerates all make/bind/apply sequences of length 4 "
+             "(quick) / 5 (thorough) over 3 parameters from two parameter lists and 2 values; each is replayed and every "
+             "result compared; random histories over 6 parameters validated by the trace spec.",
+        ref="DESIGN.md §3 C16", tech="TLA+ IprSubst: exhaustive TLC behaviours replayed + trace validation",
+        note="Trusted: TLC, harness/subst.cxx; expressions identified by address."),
+})
+
 ALL = ["C%02d" % i for i in range(1, 21)]
 NOT_YET = "check not built yet in this round; see DESIGN.md §8 for the order of construction"
 
